@@ -3,11 +3,13 @@ ADD = {'Clipper2Lib::RectClip64::Add(': 'stub_add'}
 META = dict(
   level_text='Bounded model checking of the vertex-skipping state step shared by RectClipLines64 and RectClip64 (GetNextLocation: which vertices are emitted, where the walk stops, in which region) and of the location classification, for all rectangles and coordinates up to 2^40. Piece geometry and length over all polylines are not decided end-to-end.',
   level_note='RectClip64::Add is a recorder. GetIntersection / GetSegmentIntersectPt accuracy is C18\'s subject (and has a known finding).',
-  functions=['RectClip64::GetNextLocation (used by RectClipLines64::ExecuteInternal)', 'GetLocation'],
+  functions=['GetIntersection', 'RectClipLines64::Execute/ExecuteInternal/GetPath (sequence harness)', 'RectClip64::GetNextLocation (used by RectClipLines64::ExecuteInternal)', 'GetLocation'],
   assumptions=['|coordinates| <= 2^40, non-empty rectangle, 3-vertex polyline'],
   outside=['RectClipLines64::ExecuteInternal as a whole, GetPath, crossing-point accuracy'],
 )
+SEG = {'Clipper2Lib::GetSegmentIntersection(': 'stub_segint'}
 OBLIGATIONS = [
+] + [O('C09.b-getintersection-closest-loc%d' % l, 'rect_units.cpp', 'harness_getintersection', defs=['LOC0=%d' % l, 'GIL=4'], replace=SEG, unwind=6, backend=['kissat', 'cadical'], timeout=300, tiers='qt' if l in (0, 3) else 't', bound='all rectangles and segments with |coord|<=16 in general position, p strictly in half-plane %d (0=Left,1=Top,2=Right,3=Bottom)' % l, desc='GetIntersection succeeds iff the segment properly crosses the rectangle boundary and reports the entry edge (the crossing closest to p)') for l in range(4)] + [  O('C09.a-lines-sequence', 'rect_units.cpp', 'harness_lines_sequence', unwind=12, timeout=300, bound='a crossing line (symbolic y), a single point inside (symbolic), an inside segment; two Execute calls', desc='RectClipLines64::Execute returns the two pieces, is memory safe on one-point paths and repeats on the same object'),
   O('C09.b-getnextlocation', 'rect_units.cpp', 'harness_getnextlocation', replace=ADD, unwind=10, bound='3-vertex polyline, any start index and start location', desc='skipped vertices stay in the start region; inside vertices are emitted in input order; the stop vertex lies in the named region'),
   O('C09.b-getlocation', 'rect_units.cpp', 'harness_getlocation', bound='all rectangles/points up to 2^40', desc='boundary points are classified as on the rectangle (kept), others by region'),
 ]
